@@ -565,3 +565,322 @@ Proof.
   - intros r [<-|[]]. reflexivity.
   - eexists. vm_compute. reflexivity.
 Qed.
+
+(* ================================================================== one hop: the follow-up of a slash /
+   merged-slash redirect is answered by a direct match, not by another redirect of that kind *)
+(* a variable segment never matches the empty path segment (string(minlength=0) and any() with an empty
+   item are outside the grammar) *)
+Definition seg_no_empty_match (s : seg) : bool :=
+  match s with
+  | SLit _ => true
+  | SDyn pre c _ post => negb (is_nil pre && is_nil post && in_lang (lang_of c) [])
+  end.
+Definition rule_wf2 (r : rule) : bool := rule_wf r && forallb seg_no_empty_match (r_segs r).
+
+Lemma isolating_path_false' : conv_isolating CPath = false.
+Proof. vm_compute. reflexivity. Qed.
+Lemma strip_suffix_nil' s : strip_suffix [] s = Some s.
+Proof.
+  unfold strip_suffix. cbn [length]. rewrite Nat.sub_0_r. cbn [Nat.leb]. rewrite skipn_all. cbn [list_eqb andb]. rewrite firstn_all. reflexivity.
+Qed.
+
+Definition ne_part (c : cpart dpart) : Prop :=
+  match c with
+  | PStatic _ k => k <> []
+  | PDyn _ d => forall rest, pmatch d [] rest = None
+  end.
+
+Lemma pmatch_suffixed_rem d p rest g rem :
+  d_final d = true -> d_suffixed d = true -> d_pre d = [] ->
+  pmatch d p (rest ++ [[]]) = Some (g, rem) -> rem = [[]].
+Proof.
+  intros Hf Hs Hp. unfold pmatch. rewrite Hf, Hs, Hp.
+  change (p :: rest ++ [[]]) with ((p :: rest) ++ [[]]). rewrite join_slash_snoc by discriminate.
+  unfold strip_prefix. cbn [starts_with length skipn]. rewrite ends_with_slash_snoc.
+  destruct (in_lang (d_lang d) (removelast (join_slash (p :: rest) ++ [SLASH])) && _); [|discriminate].
+  intro H. injection H as _ <-. reflexivity.
+Qed.
+
+(* the parts of a branch rule between the leading slash and the trailing slash never end on the empty segment *)
+Definition tail_ok (c : cpart dpart) : bool :=
+  match c with PDyn _ d => negb (d_final d) || is_nil (d_pre d) | PStatic _ _ => true end.
+
+Lemma body_never_ends_empty body : forall R caps,
+  Forall ne_part body -> snoc_ok body = true -> forallb tail_ok body = true ->
+  cwalk body (R ++ [[]]) = Some (caps, []) -> False.
+Proof.
+  induction body as [|c body IH]; intros R caps Hne Hok Htl Hw.
+  - cbn [Trie.walk] in Hw. injection Hw as _ Hw. destruct R; discriminate.
+  - inversion Hne as [|? ? Hc Hne']; subst. cbn [forallb] in Htl. apply andb_prop in Htl. destruct Htl as [Htc Htl].
+    destruct R as [|x R'].
+    + cbn [app] in Hw. destruct c as [k|d]; cbn [Trie.walk] in Hw.
+      * destruct (list_eqb k []) eqn:E; [|discriminate]. apply list_eqb_eq in E. exact (Hc E).
+      * cbn [ne_part] in Hc. rewrite Hc in Hw. discriminate.
+    + cbn [app] in Hw. destruct c as [k|d]; cbn [Trie.walk] in Hw.
+      * destruct (list_eqb k x); [|discriminate]. exact (IH R' caps Hne' Hok Htl Hw).
+      * destruct (pmatch d x (R' ++ [[]])) as [[g rem]|] eqn:Ep; [|discriminate].
+        destruct (cwalk body rem) as [[caps' lo]|] eqn:Ew; [|discriminate]. injection Hw as _ ->.
+        destruct body as [|c2 body2].
+        -- cbn [Trie.walk] in Ew. injection Ew as _ ->. cbn [snoc_ok] in Hok. apply orb_prop in Hok. destruct Hok as [Hp|Hfs].
+           ++ destruct (plain_facts _ Hp) as [Hf Hs]. rewrite pmatch_nonfinal in Ep by assumption.
+              destruct (pmatch d x []) as [[g0 r0]|]; [|discriminate]. injection Ep as _ Hrem. destruct R'; discriminate.
+           ++ apply andb_prop in Hfs. destruct Hfs as [Hf Hs]. cbn [tail_ok] in Htc. rewrite Hf in Htc. cbn [negb orb] in Htc.
+              assert (Hpre : d_pre d = []) by (destruct (d_pre d); [reflexivity|discriminate]).
+              pose proof (pmatch_suffixed_rem _ _ _ _ _ Hf Hs Hpre Ep). discriminate.
+        -- cbn [snoc_ok] in Hok. apply andb_prop in Hok. destruct Hok as [Hp Hok]. destruct (plain_facts _ Hp) as [Hf Hs].
+           rewrite pmatch_nonfinal in Ep by assumption. destruct (pmatch d x []) as [[g0 r0]|]; [|discriminate].
+           injection Ep as _ <-. exact (IH R' caps' Hne' Hok Htl Ew).
+Qed.
+
+Lemma seg_part_ne s : seg_nonempty s = true -> seg_no_empty_match s = true -> seg_isolating s = true ->
+  ne_part (to_cpart (seg_part s)).
+Proof.
+  destruct s as [k|pre c n post]; cbn [seg_part to_cpart ne_part seg_nonempty seg_no_empty_match seg_isolating].
+  - intros H _ _. destruct k; [discriminate|discriminate].
+  - intros _ H Hiso rest. unfold pmatch. cbn [d_final d_suffixed d_pre d_post d_lang]. rewrite Hiso. cbn [negb].
+    unfold strip_prefix. destruct pre as [|a pre]; [|reflexivity]. cbn [starts_with length skipn].
+    destruct post as [|b post]; [|reflexivity].
+    change (strip_suffix [] []) with (Some (@nil N)). cbn [is_nil andb] in H. apply negb_true_iff in H. cbv beta iota. rewrite H. reflexivity.
+Qed.
+
+Lemma path_part_ne branch :
+  ne_part (PDyn dpart {| d_pre := []; d_lang := LPath; d_post := []; d_final := negb (conv_isolating CPath); d_suffixed := branch; d_weight := path_weight |}).
+Proof.
+  cbn [ne_part]. intro rest. unfold pmatch. cbn [d_final d_suffixed d_pre d_post d_lang]. rewrite isolating_path_false'. cbn [negb].
+  cbv beta iota zeta. unfold strip_prefix. cbn [starts_with length skipn]. cbv beta iota.
+  destruct rest as [|r0 rest].
+  - cbn [join_slash]. destruct branch; cbn [ends_with_slash rev in_lang]; [reflexivity|]. unfold strip_suffix. reflexivity.
+  - change (join_slash ([] :: r0 :: rest)) with (SLASH :: join_slash (r0 :: rest)). generalize (join_slash (r0 :: rest)). intro J.
+    assert (Hl : forall t, in_lang LPath (SLASH :: t) = false) by (intro t; cbn [in_lang]; rewrite N.eqb_refl; reflexivity).
+    destruct branch.
+    + destruct (ends_with_slash (SLASH :: J)).
+      * destruct J as [|c J']; [reflexivity|]. change (removelast (SLASH :: c :: J')) with (SLASH :: removelast (c :: J')).
+        rewrite Hl. reflexivity.
+      * rewrite Hl. reflexivity.
+    + rewrite strip_suffix_nil', Hl. reflexivity.
+Qed.
+
+Lemma segs_ne l :
+  forallb seg_isolating l = true -> forallb seg_nonempty l = true -> forallb seg_no_empty_match l = true ->
+  Forall ne_part (map to_cpart (map seg_part l)) /\ forallb tail_ok (map to_cpart (map seg_part l)) = true.
+Proof.
+  induction l as [|s l IH]; cbn [forallb map]; intros H1 H2 H3; [split; [constructor|reflexivity]|].
+  apply andb_prop in H1, H2, H3. destruct H1 as [A1 B1], H2 as [A2 B2], H3 as [A3 B3].
+  destruct (IH B1 B2 B3) as [I1 I2]. split.
+  - constructor; [apply seg_part_ne; assumption|exact I1].
+  - cbn [forallb]. rewrite I2, andb_true_r. destruct s as [k|pre c n post]; cbn [seg_part to_cpart tail_ok d_final]; [reflexivity|].
+    cbn [seg_isolating] in A1. rewrite A1. reflexivity.
+Qed.
+
+(* the parts of a rule that ends with a slash: domain part, leading slash, body, trailing slash *)
+Lemma branch_body r :
+  rule_wf2 r = true -> is_branch r = true ->
+  exists body, rparts r = to_cpart (seg_part (r_dom r)) :: PStatic _ [] :: body ++ [PStatic _ []]
+    /\ snoc_ok body = true /\ Forall ne_part body /\ forallb tail_ok body = true.
+Proof.
+  unfold rule_wf2, rule_wf. intros Hwf Hb. apply andb_prop in Hwf. destruct Hwf as [Hwf Hnm].
+  apply andb_prop in Hwf. destruct Hwf as [Hwf Hne]. apply andb_prop in Hwf. destruct Hwf as [Hd Hs].
+  destruct (segs_ne _ Hs Hne Hnm) as [Hn1 Hn2].
+  unfold rparts, rule_parts. rewrite Hb. destruct (r_tail r) as [n|].
+  - cbn [tail_parts map]. rewrite map_app. cbn [map to_cpart].
+    exists (map to_cpart (map seg_part (r_segs r)) ++ [PDyn _ {| d_pre := []; d_lang := LPath; d_post := []; d_final := negb (conv_isolating CPath); d_suffixed := true; d_weight := path_weight |}]).
+    split; [rewrite <- app_assoc; reflexivity|]. split; [|split].
+    + apply snoc_ok_static_segs; [exact Hs|vm_compute; reflexivity|]. intros d t H. injection H as _ <-. reflexivity.
+    + apply Forall_app. split; [exact Hn1|]. constructor; [apply path_part_ne|constructor].
+    + rewrite forallb_app, Hn2. reflexivity.
+  - cbn [map]. rewrite map_app. cbn [map to_cpart].
+    exists (map to_cpart (map seg_part (r_segs r))). split; [reflexivity|]. split; [|split; assumption].
+    rewrite <- (app_nil_r (map to_cpart _)). apply snoc_ok_static_segs; [exact Hs|reflexivity|discriminate].
+Qed.
+
+(* what a slash admission consists of *)
+Lemma aslash_inv m r P :
+  admits m r P = ASlash rres ->
+  exists cs' caps v, rparts r = cs' ++ [PStatic _ []] /\ cwalk cs' P = Some (caps, []) /\ rconvert r caps = Some v.
+Proof.
+  intro Ha. unfold admits, Trie.admits in Ha.
+ unfold Trie.convert_adm in Ha.
+    destruct (cwalk (rparts r) P) as [[caps lo]|] eqn:Ew.
+    - destruct lo as [|l0 lo].
+      + destruct (rconvert r caps); discriminate.
+      + destruct l0 as [|x l0]; [destruct lo as [|l1 lo]|].
+        * destruct (rstrict m r); [discriminate|]. destruct (rconvert r caps); discriminate.
+        * destruct (Trie.strip_last_empty dpart (rparts r)) as [cs'|] eqn:Es; [|discriminate].
+          destruct (cwalk cs' P) as [[caps2 lo2]|] eqn:Ew2; [|discriminate]. destruct lo2; [|discriminate].
+          destruct (rconvert r caps2) as [v|] eqn:Ec; [|discriminate].
+          apply (strip_last_empty_some dpart) in Es. exists cs', caps2, v. auto.
+        * destruct (Trie.strip_last_empty dpart (rparts r)) as [cs'|] eqn:Es; [|discriminate].
+          destruct (cwalk cs' P) as [[caps2 lo2]|] eqn:Ew2; [|discriminate]. destruct lo2; [|discriminate].
+          destruct (rconvert r caps2) as [v|] eqn:Ec; [|discriminate].
+          apply (strip_last_empty_some dpart) in Es. exists cs', caps2, v. auto.
+    - destruct (Trie.strip_last_empty dpart (rparts r)) as [cs'|] eqn:Es; [|discriminate].
+      destruct (cwalk cs' P) as [[caps2 lo2]|] eqn:Ew2; [|discriminate]. destruct lo2; [|discriminate].
+      destruct (rconvert r caps2) as [v|] eqn:Ec; [|discriminate].
+      apply (strip_last_empty_some dpart) in Es. exists cs', caps2, v. auto.
+Qed.
+
+(* no rule admits a path that ends with an empty segment "but for its trailing slash" *)
+Lemma dom_part_plain r d :
+  rule_wf r = true -> to_cpart (seg_part (r_dom r)) = PDyn _ d -> plain d = true.
+Proof.
+  unfold rule_wf. intros Hwf Hd. apply andb_prop in Hwf. destruct Hwf as [Hwf _]. apply andb_prop in Hwf. destruct Hwf as [Hiso _].
+  destruct (r_dom r) as [k|pre c n post]; cbn [seg_part to_cpart] in Hd; [discriminate|]. injection Hd as <-.
+  cbn [seg_isolating] in Hiso. unfold plain. cbn [d_final d_suffixed]. rewrite Hiso. reflexivity.
+Qed.
+
+Lemma no_slash_admission m r q0 q1 Q :
+  rule_wf2 r = true -> admits m r (q0 :: q1 :: Q ++ [[]]) <> ASlash rres.
+Proof.
+  intros Hwf Ha. destruct (aslash_inv _ _ _ Ha) as (cs' & caps & v & Hp & Hw & _).
+  assert (Hwf1 : rule_wf r = true) by (unfold rule_wf2 in Hwf; apply andb_prop in Hwf; exact (proj1 Hwf)).
+  pose proof (slash_parts_branch r cs' Hwf1 Hp) as Hb.
+  destruct (branch_body r Hwf Hb) as (body & Hp2 & Hok & Hne & Htl).
+  rewrite Hp2 in Hp. rewrite !app_comm_cons in Hp. apply app_inj_tail in Hp. destruct Hp as [<- _].
+  assert (Hbody : forall c0, match cwalk (PStatic _ [] :: body) (q1 :: Q ++ [[]]) with Some (c2, lo) => Some (c0 ++ c2, lo) | None => None end = Some (caps, []) -> False).
+  { intros c0 H. cbn [Trie.walk] in H. destruct (list_eqb [] q1); [|discriminate].
+    destruct (cwalk body (Q ++ [[]])) as [[c2 lo]|] eqn:Eb; [|discriminate]. injection H as _ ->.
+    exact (body_never_ends_empty body Q c2 Hne Hok Htl Eb). }
+  destruct (to_cpart (seg_part (r_dom r))) as [k|d] eqn:Ed.
+  - cbn [Trie.walk] in Hw. destruct (list_eqb k q0); [|discriminate]. apply (Hbody []). cbn [Trie.walk].
+    destruct (list_eqb [] q1); [|discriminate]. destruct (cwalk body (Q ++ [[]])) as [[c2 lo]|]; [|discriminate]. exact Hw.
+  - destruct (plain_facts _ (dom_part_plain r d Hwf1 Ed)) as [Hf Hs].
+    change (cwalk (PDyn _ d :: PStatic _ [] :: body) (q0 :: q1 :: Q ++ [[]]))
+      with (match pmatch d q0 (q1 :: Q ++ [[]]) with
+            | Some (g, rem) => match cwalk (PStatic _ [] :: body) rem with Some (c2, lo) => Some (g ++ c2, lo) | None => None end
+            | None => None end) in Hw.
+    rewrite pmatch_nonfinal in Hw by assumption. destruct (pmatch d q0 []) as [[g0 r0]|]; [|discriminate].
+    exact (Hbody g0 Hw).
+Qed.
+
+Lemma merge_slashes_length_aux n : forall s, (length s <= n)%nat -> (length (merge_slashes s) <= length s)%nat.
+Proof.
+  induction n as [|n IH]; intros s Hs.
+  - destruct s; [apply Nat.le_refl|cbn [length] in Hs; lia].
+  - destruct s as [|a t]; [apply Nat.le_refl|]. destruct t as [|b r]; [apply Nat.le_refl|].
+    assert (H1 : (length r <= n)%nat) by (cbn [length] in Hs; lia).
+    assert (H2 : (length (b :: r) <= n)%nat) by (cbn [length] in *; lia).
+    pose proof (IH r H1) as I1. pose proof (IH (b :: r) H2) as I2.
+    change (merge_slashes (a :: b :: r)) with (if (a =? SLASH) && (b =? SLASH) then SLASH :: merge_slashes r else a :: merge_slashes (b :: r)).
+    destruct ((a =? SLASH) && (b =? SLASH)); cbn [length] in *; lia.
+Qed.
+Lemma merge_slashes_length s : (length (merge_slashes s) <= length s)%nat.
+Proof. apply (merge_slashes_length_aux (length s)). lia. Qed.
+
+Lemma split_slash_cons_nonempty s : exists x l, split_slash s = x :: l.
+Proof. pose proof (split_slash_nonempty s) as H. destruct (split_slash s) as [|x l]; [contradiction|eauto]. Qed.
+
+(* the first pass over a path that ends with a slash never asks for another slash *)
+Lemma no_second_slash m domain path meth ws h w :
+  (forall r, In r (m_rules m) -> rule_wf2 r = true) ->
+  smatch dpart rule rres pmatch rmethods r_websocket (rstrict m) rconvert meth ws (trie_of m)
+         (domain :: split_slash (path ++ [SLASH])) [] <> (MSlash rule rres, h, w).
+Proof.
+  intros Hwf E. unfold trie_of in E.
+  destruct (root_slash_sound dpart rule rres pmatch dpart_eqb dpart_wlt rmethods r_websocket (rstrict m) rconvert rparts
+              dpart_eqb_eq _ _ _ _ _ _ E) as (r & Hin & Ha & _ & _).
+  rewrite split_slash_snoc in Ha. destruct (split_slash_cons_nonempty path) as (x & l & Hs). rewrite Hs in Ha. cbn [app] in Ha.
+  exact (no_slash_admission m r domain x l (Hwf r Hin) Ha).
+Qed.
+
+(* C12_converges, one hop: the target of a slash / merged-slash redirect is answered by the matcher with a
+   direct match - no further redirect of that kind *)
+Theorem matcher_follow m domain path meth ws p' :
+  (forall r, In r (m_rules m) -> rule_wf2 r = true) ->
+  matcher_run m (trie_of m) domain path meth ws = MPath rule rres p' ->
+  exists r' v', matcher_run m (trie_of m) domain p' meth ws = MOk rule rres r' v'.
+Proof.
+  intros Hwf H.
+  assert (Hwf1 : forall r, In r (m_rules m) -> rule_wf r = true).
+  { intros r Hr. specialize (Hwf r Hr). unfold rule_wf2 in Hwf. apply andb_prop in Hwf. exact (proj1 Hwf). }
+  (* after a slash redirect: some rule serves the target directly, and no slash is asked for again *)
+  assert (Hslash : forall q r, In r (m_rules m) -> admits m r (domain :: split_slash q) = ASlash rres ->
+                     rmethod_ok r meth = true -> r_websocket r = ws ->
+                     exists r' v', matcher_run m (trie_of m) domain (q ++ [SLASH]) meth ws = MOk rule rres r' v').
+  { intros q r Hin Ha Hm Hw. destruct (slash_target_admitted m r _ (Hwf1 r Hin) Ha) as (v & Hv).
+    assert (Hs : serves m meth ws r (domain :: split_slash (q ++ [SLASH]))).
+    { rewrite split_slash_snoc. cbn [app] in Hv. split; [rewrite Hv; discriminate|split; assumption]. }
+    destruct (matcher_first_pass m domain (q ++ [SLASH]) meth ws r Hin Hs) as [Hok|[E _]]; [exact Hok|].
+    exfalso. unfold matcher_run, matcher_match in E.
+    destruct (smatch _ _ _ _ _ _ _ _ _ _ (trie_of m) (domain :: split_slash (q ++ [SLASH])) []) as [[x h1] w1] eqn:E1.
+    destruct x as [|r1 v1|].
+    - destruct (m_merge m); [|discriminate].
+      destruct (smatch _ _ _ _ _ _ _ _ _ _ (trie_of m) (domain :: split_slash (merge_slashes (q ++ [SLASH]))) []) as [[x2 h2] w2].
+      destruct x2 as [|r2 v2|]; try discriminate.
+      + destruct (rmerge m r2); [|discriminate].
+        (* a found first pass cannot be MNone: r serves the path *)
+        pose proof (root_complete_hit dpart rule rres pmatch dpart_eqb dpart_wlt rmethods r_websocket (rstrict m) rconvert rparts
+                      dpart_eqb_eq (m_rules m) meth ws (domain :: split_slash (q ++ [SLASH])) r Hin (proj1 Hs) (proj1 (proj2 Hs)) (proj2 (proj2 Hs))) as Hc.
+        unfold trie_of in E1. rewrite E1 in Hc. exact (Hc eq_refl).
+      + pose proof (root_complete_hit dpart rule rres pmatch dpart_eqb dpart_wlt rmethods r_websocket (rstrict m) rconvert rparts
+                      dpart_eqb_eq (m_rules m) meth ws (domain :: split_slash (q ++ [SLASH])) r Hin (proj1 Hs) (proj1 (proj2 Hs)) (proj2 (proj2 Hs))) as Hc.
+        unfold trie_of in E1. rewrite E1 in Hc. exact (Hc eq_refl).
+    - discriminate.
+    - exact (no_second_slash m domain q meth ws h1 w1 Hwf E1). }
+  pose proof (matcher_path_sound _ _ _ _ _ _ H) as Hp.
+  destruct Hp as [r Hin Ha Hm Hw ->|r Hmg Hin Ha Hm Hw ->|r v Hmg Hin Hrm Ha Hm Hw ->].
+  - exact (Hslash path r Hin Ha Hm Hw).
+  - exact (Hslash (merge_slashes path) r Hin Ha Hm Hw).
+  - (* merged slashes: the follow-up repeats the search that found the rule *)
+    assert (Hs : serves m meth ws r (domain :: split_slash (merge_slashes path))) by (eapply serves_of_direct; eassumption).
+    destruct (matcher_first_pass m domain (merge_slashes path) meth ws r Hin Hs) as [Hok|[E (r2 & Hin2 & Ha2)]]; [exact Hok|].
+    (* a slash redirect for the merged path would have been the answer to the original request as well *)
+    exfalso. unfold matcher_run, matcher_match in H, E.
+    destruct (smatch _ _ _ _ _ _ _ _ _ _ (trie_of m) (domain :: split_slash path) []) as [[x h1] w1].
+    destruct (smatch _ _ _ _ _ _ _ _ _ _ (trie_of m) (domain :: split_slash (merge_slashes path)) []) as [[x2 h2] w2].
+    destruct x as [|r1 v1|]; try discriminate.
+    + rewrite Hmg in H. destruct x2 as [|r3 v3|].
+      * discriminate.
+      * discriminate E.
+      * injection H as H. (* merge_slashes path ++ [SLASH] = merge_slashes path *)
+        apply (f_equal (@length N)) in H. rewrite app_length in H. cbn [length] in H. lia.
+    + injection H as H. apply (f_equal (@length N)) in H. rewrite app_length in H. cbn [length] in H.
+      pose proof (merge_slashes_length path). lia.
+Qed.
+
+Lemma adapter_of_matcher h m a p2 me r v :
+  matcher_run m (trie_of m) (domain_part m a) (path_part p2) (upper me) (a_websocket a) = MOk rule rres r v ->
+  map_match h m a p2 me = Match r (dict_update v (r_defaults r))
+  \/ (m_redirect_defaults m = true
+      /\ ((exists u, map_match h m a p2 me = RedirectTo u) \/ (exists e, map_match h m a p2 me = Raised e))).
+Proof.
+  intro E. unfold map_match, adapter_match. fold (upper me). rewrite E.
+  destruct (m_redirect_defaults m) eqn:Erd; [|rewrite andb_false_r; left; reflexivity].
+  rewrite andb_true_r. destruct (r_alias r).
+  - right. split; [reflexivity|]. destruct (h_alias h m a (upper me) r _); eauto.
+  - destruct (h_default h m a (upper me) r _) as [[u|]| |]; eauto 6.
+Qed.
+
+Theorem converges_one_hop m a p me u :
+  (forall r, In r (m_rules m) -> rule_wf2 r = true) ->
+  router_match m a p me = RedirectTo u ->
+  (exists p', u = make_redirect_url m a (quote safe_redirect p') None
+     /\ exists r' v', matcher_run m (trie_of m) (domain_part m a) p' (upper me) (a_websocket a) = MOk rule rres r' v'
+        /\ forall p2, path_part p2 = p' ->
+             router_match m a p2 me = Match r' (dict_update v' (r_defaults r'))
+             \/ (m_redirect_defaults m = true
+                 /\ ((exists u', router_match m a p2 me = RedirectTo u') \/ (exists e, router_match m a p2 me = Raised e))))
+  \/ (exists r v, In r (m_rules m) /\ admits m r (request_parts m a p) = ADirect _ v /\ m_redirect_defaults m = true
+        /\ (r_alias r = true /\ alias_redirect_url m a (upper me) r (dict_update v (r_defaults r)) = BOk u
+            \/ get_default_redirect m a (upper me) r (dict_update v (r_defaults r)) = BOk (Some u))).
+Proof.
+  intros Hwf H. unfold router_match, map_match, adapter_match in H. fold (upper me) in H.
+  destruct (matcher_run m (trie_of m) (domain_part m a) (path_part p) (upper me) (a_websocket a)) as [r0 v0|p'|hm wsm] eqn:E.
+  - right. apply matcher_ok_sound in E. destruct E as (Hin & Ha & Hm & Hw). exists r0, v0.
+    split; [exact Hin|]. split; [exact Ha|].
+    destruct (r_alias r0) eqn:Eal; cbn [andb] in H.
+    + destruct (m_redirect_defaults m) eqn:Erd; [|discriminate]. split; [reflexivity|].
+      cbn [router_hooks h_alias] in H. destruct (alias_redirect_url m a (upper me) r0 _) as [u0| |] eqn:Eh; try discriminate.
+      injection H as <-. left. auto.
+    + destruct (m_redirect_defaults m) eqn:Erd; [|discriminate]. split; [reflexivity|].
+      cbn [router_hooks h_default] in H. destruct (get_default_redirect m a (upper me) r0 _) as [[u0|]| |] eqn:Ed; try discriminate.
+      injection H as <-. right. reflexivity.
+  - left. injection H as <-. exists p'. split; [reflexivity|].
+    destruct (matcher_follow _ _ _ _ _ _ Hwf E) as (r' & v' & Hf). exists r', v'. split; [exact Hf|].
+    intros p2 Hp2. unfold router_match. apply adapter_of_matcher. rewrite Hp2. exact Hf.
+  - destruct (negb (is_nil hm)); [discriminate|]. destruct wsm; discriminate.
+Qed.
+
+Lemma ex_one_hop_hyps :
+  (forall r, In r (m_rules (mk_map [ex_r3])) -> rule_wf2 r = true)
+  /\ exists u, router_match (mk_map [ex_r3]) ex_adapter_app [47; 47; 101; 118; 105; 108; 46; 99; 111; 109; 47; 51] GET = RedirectTo u.
+Proof. split; [intros r [<-|[]]; vm_compute; reflexivity|eexists; vm_compute; reflexivity]. Qed.
